@@ -151,8 +151,18 @@ func (sc *Scheduler) Schedule(ctx context.Context, g *ExecutionGraph, done chan 
 					sc.lastError = err
 					node.setErr(err)
 				}
+				// The files of this attempt are flushed and closed exactly once
+				// by this worker, and before the node can be launched again.
+				tornDown := false
+				teardown := func() error {
+					if tornDown {
+						return nil
+					}
+					tornDown = true
+					return sc.teardownNode(node)
+				}
 				defer func() {
-					_ = sc.teardownNode(node)
+					_ = teardown()
 				}()
 
 				// executed tells whether the step's command (or its dry-run stand-in) was run at all: a step that the
@@ -189,6 +199,9 @@ func (sc *Scheduler) Schedule(ctx context.Context, g *ExecutionGraph, done chan 
 							)
 							time.Sleep(node.data.Step.RetryPolicy.Interval)
 							node.setRetriedAt(time.Now())
+							if err := teardown(); err != nil {
+								sc.setLastError(err)
+							}
 							node.setStatus(NodeStatusNone)
 							retrying = true
 						default:
@@ -230,7 +243,7 @@ func (sc *Scheduler) Schedule(ctx context.Context, g *ExecutionGraph, done chan 
 						node.setStatus(NodeStatusCancel)
 					}
 				}
-				if err := sc.teardownNode(node); err != nil {
+				if err := teardown(); err != nil {
 					sc.setLastError(err)
 					node.setStatus(NodeStatusError)
 				}
